@@ -385,7 +385,7 @@ func ruleFillGuards(w *World, r *Report, pfx string) {
 	} else {
 		r.Unresolved("anchor", "bFiller.Fill", "not found")
 	}
-	if fn := w.Func("mpb.(*sFiller).Fill"); fn != nil {
+	if fn := w.spinnerFill(); fn != nil {
 		bad := ""
 		saw := false
 		w.enumPaths(fn, pathOpts{InlineDepth: 2, Inline: w.helperInline(fn)}, func(p *Path) {
@@ -430,6 +430,7 @@ func checkC07(w *World, r *Report) {
 	ruleTermSize(w, r, "C07")
 	ruleWidthClamp(w, r, "C07")
 	ruleWriterNew(w, r, "C07")
+	ruleIsTerminal(w, r, "C07")
 	ruleStatisticsFaithful(w, r, "C07")
 	ruleRenderSize(w, r, "C07")
 	ruleOptionTable(w, r, "C07", map[string][3]string{"WithWidth": {tPState, "reqWidth", "param"}, "BarWidth": {tBState, "reqWidth", "param"}, "BarFillerTrim": {tBState, "trimSpace", "true"}})
@@ -440,6 +441,9 @@ func checkC07(w *World, r *Report) {
 	ruleRowsFit(w, r, "C07")
 	ruleRowsAreLines(w, r, "C07")
 	ruleCellsBounded(w, r, "C07")
+	ruleTipCounted(w, r, "C07")
+	ruleSpinnerBody(w, r, "C07")
+	ruleUserFillerKept(w, r, "C07")
 }
 
 // ruleFillAccounting: in bFiller.Fill every appended component advances fillCount by that
@@ -950,6 +954,7 @@ func checkC08(w *World, r *Report) {
 	ruleNoIntegerProduct(w, r, "C08")
 	ruleMonotone(w, r, "C08")
 	ruleFillerUse(w, r, "C08")
+	ruleUserFillerKept(w, r, "C08")
 	ruleFillAccounting(w, r, "C08")
 	// fill loops terminate (shares E5)
 	if fn := w.Func("mpb.(*bFiller).Fill"); fn != nil {
